@@ -169,6 +169,8 @@ static void oracle_export_module(struct vf_rng *r, const char *mod, long nsizes,
 	gen_optvec(r, &o, mod);
 	e = make_export(&o);
 	if (!e) return;
+	if (!strcmp(mod, "html")) vf_count(o.header ? "html_exports_with_header" : "html_exports_without_header", 1);
+	if (PG_boxed && (!strcmp(mod, "png") || !strcmp(mod, "xpm"))) vf_count(o.transparency ? "boxed_page_image_exports_transparent" : "boxed_page_image_exports_opaque", 1);
 
 	snprintf(phase, sizeof phase, "vbi_export_alloc:%s", mod);
 	vf_phase(phase);
